@@ -179,7 +179,7 @@ Proof.
       destruct (negb wf); [apply bpost_die; auto|].
       apply bpost_of_bres; [exact Hg|]. unfold bres. split; [reflexivity|]. split; [intros x Hx; right; exact Hx|].
       intros x b Hx. apply in_map_iff in Hx. destruct Hx as [m [Hm Hi]]. subst x. cbn [emit body].
-      unfold pha_reply in Hi. destruct (dev (cf (note_ctx me ctx)) =? 6); cbn [In] in Hi;
+      unfold pha_reply in Hi. destruct (dev (cf (note_ctx me ctx)) =? 6); [|destruct (dev (cf (note_ctx me ctx)) =? 7)]; cbn [In] in Hi;
         repeat (destruct Hi as [Hi|Hi]; [subst m; discriminate|]); destruct Hi.
     + (* MCert *)
       destruct (v13 && negb (is_cl (cf me)) && negb (match pending (au me) with [] => true | _ :: _ => false end));
@@ -194,6 +194,8 @@ Proof.
       apply bpost_of_bres; [exact Hg|].
       destruct fatal; [|destruct (desc =? 0)]; unfold bres; cbn; (split; [reflexivity|]);
         (split; [intros x Hx; right; exact Hx|]); try apply no_hb_nil; apply no_hb_alert.
+    + apply bpost_die; auto.
+    + apply bpost_die; auto.
 Qed.
 
 Lemma hb_rec_ok_mono w w' r' r'' x :
